@@ -51,4 +51,8 @@ def respFluxScale (old base : Rat) : Rat := (old / base)
     gives the model its saved variables back -/
 def respFinallyRestores : Bool := true
 
+/-- `Model.update_variables` / `update_parameters` call `self._check_known_names(...)` (which raises and writes nothing)
+    before the first `update_variable` / `update_parameter` -/
+def updatesCheckNamesFirst : Bool := true
+
 end Mxl.Generated.C18
